@@ -27,11 +27,13 @@ def spd(rng, d):
   return gen.grid(A.T.dot(A) + np.eye(d))
 
 
-def build(cfg, rng, tr):
+def build(cfg, rng, tr, default_n_constraints=False):
   """estimator for an enumerated configuration (concrete arrays / in-range hyper-parameters chosen here)"""
   name, d = cfg['cls'], cfg['d']
   o = dict(gen.FAST[name])
   nc = cfg['nc'] or None
+  if default_n_constraints and name in ('ITML_Supervised', 'MMC_Supervised', 'LSML_Supervised'):
+    o['n_constraints'] = None          # the documented default: 20 * n_classes ** 2
   if name in ('LFDA', 'LMNN', 'NCA', 'MLKR', 'RCA', 'RCA_Supervised'):
     o['n_components'] = nc
   if name in ('LMNN', 'NCA', 'MLKR'):
@@ -122,7 +124,7 @@ def gen_trace(recipe):
       y = gen.relabel(rng, y)         # class ids with gaps / not starting at 0
     tr = gen.training(rng, name, X=X, y=y)
     if est is None:
-      est, opts = build(cfg, rng, tr)
+      est, opts = build(cfg, rng, tr, default_n_constraints=bool(recipe.get('unbalanced')))
     else:
       # refit of the SAME object on data of another dimensionality (same parameters)
       if name == 'RCA_Supervised':
